@@ -37,11 +37,8 @@ not_caught = {
  'C18-12': 'needs one python Config object listed in the `uses` of several top-level configs with different contexts; generated configurations are files / dicts / fresh Config objects per rendering',
  'C20-12': 'needs a directory result holding a relative symlink that points outside its own directory; generated directory values hold files and empty directories only',
  'C02-14': 'needs a Path-typed parameter whose value carries a placeholder AND ends in a slash, built under different global-variable values; Path-typed values are generated without trailing separators',
- 'C04-14': 'needs two simulated processes alive at the same time (process A lists a directory, process B stores a result, A asks again); storesim runs the processes of a history one after the other',
  'C13-14': 'needs two member configs of one MultiChain that pull in the same config file under contexts with the same *name* (exp1/context.json, exp2/context.json) but different content; generated context files of one history have distinct names',
  'C20-14': 'removes the kept work directory of an unfinished ContinuesData computation from the source; the listing comparison of the source ignores work paths (<name>_tmp), which inspection by the unchanged migration legitimately creates (known finding F5)',
- 'C01-15': 'needs an optional input declared inside Meta.input_tasks *before* regular inputs, absent from the chain, and a run body reading a later input by index; generated optional inputs are declared after the regular ones',
- 'C13-15': 'needs MultiChain member config names one of which is a substring of another (model / model_v2) together with access through mc[name]; generated member names (cfg<i>_m<j>) are never substrings of one another',
  'C20-15': 'needs the system temporary directory on another file system than the target *and* a process death inside shutil.move; the crash points of the migration profile are counted over operations inside the store only',
  'C12-15': 'needs a result that sits at its 1.4.0 place without its run info file (data-only copy); release 1.4.0 always writes the run info beside the result',
  'C20-10': 'neutralised by the F18 repair (82f9451): it needed the empty target file an interrupted copy used to leave; after the repair the rebased change no longer changes behaviour for deterministic tasks (demo exits 0 with and without it)',
